@@ -111,8 +111,7 @@ func (inst *Instance) fallbackVectors(P *Program, solverName string, timeoutMs i
 func (x *Exec) diverseModels(rng *rand.Rand, k int, sink *[]map[string]interface{}) {
 	out := *sink
 	defer func() { *sink = out }()
-	// cheap first: bulk candidates checked by evaluation (no solver calls)
-	out = append(out, x.bulkModels(rng, x.inst.bulkWitnesses())...)
+	bulkDone := false
 	type pinf func(in Input, t *Term, i int) *Term
 	randomPin := func(in Input, t *Term, i int) *Term {
 		switch in.Kind {
@@ -189,11 +188,13 @@ func (x *Exec) diverseModels(rng *rand.Rand, k int, sink *[]map[string]interface
 			return randomPin(in, t, i)
 		}
 	}
-	strategies := []pinf{constPin(0, 0), constPin(255, 2047), leadZero}
+	var strategies []pinf
 	if maxTok != "" {
-		strategies = append(strategies, edgeEmpty(false), edgeEmpty(true))
+		// sentences with a separator at either end come first: they are kept whatever the budget
+		strategies = append(strategies, edgeEmpty(true), edgeEmpty(false))
 		k += 2
 	}
+	strategies = append(strategies, constPin(0, 0), constPin(255, 2047), leadZero)
 	for len(strategies) < k {
 		strategies = append(strategies, randomPin)
 	}
@@ -250,7 +251,18 @@ func (x *Exec) diverseModels(rng *rand.Rand, k int, sink *[]map[string]interface
 			}
 		}
 	}
-	for _, strat := range strategies[:k] {
+	runBulk := func() {
+		if !bulkDone {
+			bulkDone = true
+			// bulk candidates checked by evaluation (no solver calls)
+			out = append(out, x.bulkModels(rng, x.inst.bulkWitnesses())...)
+		}
+	}
+	defer runBulk()
+	for si, strat := range strategies[:k] {
+		if (maxTok == "" && si == 0) || (maxTok != "" && si == 2) {
+			runBulk() // after the edge-separator sentences, before the other solver-pinned ones
+		}
 		var pins []*Term
 		for _, in := range x.inputs {
 			for i, t := range in.Terms {
